@@ -373,7 +373,44 @@ fn node_block_ok(s: &Snap, idx: usize, text: &str) -> Result<(), String> {
     }
 }
 
+/// Display of trees with branching factor 4 (decisions with two-row predicates); DOT exists for K = 2 only
+fn run_tree4(case: u64, rng: &mut Rng, ev: &mut Ev) {
+    let in_dim = 1 + rng.below(4);
+    let out_dim = 1 + rng.below(3);
+    let mut cfg = gen::TreeCfg::basic(4, in_dim, out_dim, if rng.chance(0.5) { Regime::Dyadic } else { Regime::Short });
+    cfg.max_depth = 1 + rng.below(3);
+    cfg.p_missing = if rng.chance(0.5) { 0.3 } else { 0.0 };
+    cfg.p_zero_pred = 0.1;
+    cfg.allow_leaf_root = true;
+    let spec = gen::spec(rng, &cfg);
+    let scr = rng.chance(0.6);
+    let tree = gen::build::<4>(&spec, rng, scr);
+    let s = snap(&tree);
+    let desc = json!({"K": 4, "tree": s.to_json()});
+    ev.evaluations += 1;
+    let disp = match lib(case, "AffTree<4> Display", || format!("{}", tree)) {
+        Ok(t) => t,
+        Err(p) => {
+            ev.violation(case, "c19:tree-display:panic", "", json!({"case": desc, "panic": p}));
+            return;
+        }
+    };
+    if let Err(e) = check_display(&s, &disp) {
+        ev.violation(case, "c19:tree-display:k4", "", json!({"case": desc, "output": disp, "problem": e}));
+        return;
+    }
+    ev.inc("k4_trees_rendered");
+    ev.count("tree_nodes_rendered", s.nodes.len() as u64);
+    if s.nodes.values().any(|n| n.has_children() && n.mat.len() == 2) {
+        ev.inc("k4_trees_with_two_row_predicates");
+        ev.nontrivial(s.structural_hash());
+    }
+}
+
 fn run_tree(case: u64, rng: &mut Rng, ev: &mut Ev) {
+    if rng.chance(0.25) {
+        return run_tree4(case, rng, ev);
+    }
     let big = rng.chance(0.25);
     let in_dim = if big { 21 + rng.below(5) } else { 1 + rng.below(4) };
     let out_dim = if rng.chance(0.2) { 6 + rng.below(2) } else { 1 + rng.below(3) };
